@@ -8,7 +8,7 @@ LEVEL = "exploration"
 RULE = ("constraint family (half-space, ball, annulus, thin band, removed orthant, measure-zero hyperplane; boolean and float "
         "returns) x geometry (incl. log transform) x noise mode x start kind (feasible / infeasible / feasible but infeasible "
         "after mesh snapping); the monitor re-evaluates the user's own constraint on the very array passed to the target, on "
-        "every filter output and on the result; infeasible given starts must raise ValueError with 0 target calls. Non-trivial: "
+        "every filter output and on the result; infeasible given starts must raise ValueError with 0 target calls. One case in nine is followed, in the same process, by a SEQUEL run that is handed the same constraint callable OBJECT (same x-space region) with another plausible box, i.e. another internal coordinate system (multi-start / re-scaling loops do this); the sequel is judged by the same oracle. Non-trivial: "
         "the constraint rejected candidates at >= 2 different call sites (init/search/poll/ES) or a start was rejected; distinct "
         "= distinct (D, geometry, start, landscape, location, mode, constraint, start kind) signatures")
 RUN_KW = {"quick": dict(timeout_case=120, wall_cap=600), "thorough": dict(timeout_case=240, wall_cap=3000)}
@@ -60,7 +60,28 @@ def cases(tier, seed):
             x0t = gen.tmap(P_.x0, P_.plb, P_.pub, P_.logm)
             spec["target"]["c"] = (x0t + a * (spec["cons"]["b"] - float(a @ x0t) + 0.3)).tolist()  # optimum beyond the constraint
             start = "feasible"
-        out.append({"spec": spec, "start": start})
+        case = {"spec": spec, "start": start}
+        if i % 9 == 5:
+            # SEQUEL sharing the constraint OBJECT: the same x-space region, the same callable object, but another plausible box
+            # (hence another internal coordinate system) in a second run of the same process - what a multi-start / re-scaling
+            # loop does.  Anything remembered per constraint object or per internal coordinate must not leak between the runs.
+            rng3 = gen.rng_for(seed, "C02", 200000 + i)
+            specA = gen.make_spec(rng3, D=int(rng3.choice([1, 2, 3], p=[0.2, 0.5, 0.3])), geom=str(rng3.choice(["lin", "offcentre", "wide"])), x0mode="in",
+                                  land=str(rng3.choice(["quad", "sphere", "l1", "rosen"])), where=str(rng3.choice(["in", "onb", "out"])),
+                                  mode=str(rng3.choice(["det", "det", "he", "auto"])), cons=str(rng3.choice(["ball", "halfspace", "annulus", "corner", "stripes"])),
+                                  max_fun_evals=int(rng3.choice([40, 60])))
+            PA = gen.Problem(specA)
+            if np.all(np.isfinite(PA.lb)) and np.all(np.isfinite(PA.ub)):
+                specB = {k: (dict(v) if isinstance(v, dict) else v) for k, v in specA.items()}
+                ctr, half = 0.5 * (PA.plb + PA.pub), 0.5 * (PA.pub - PA.plb)
+                sc = float(rng3.choice([0.5, 2.0, 3.0]))
+                marg = 2e-3 * (PA.ub - PA.lb)
+                nplb, npub = np.maximum(ctr - sc * half, PA.lb + marg), np.minimum(ctr + sc * half, PA.ub - marg)
+                if np.all(npub - nplb > 1e-3 * (PA.ub - PA.lb)) and not (np.allclose(nplb, PA.plb) and np.allclose(npub, PA.pub)):
+                    specB["plb"], specB["pub"] = nplb.tolist(), npub.tolist()
+                    specB["cons_frame"] = {"lb": specA["lb"], "ub": specA["ub"], "plb": specA["plb"], "pub": specA["pub"]}
+                    case = {"spec": specA, "start": "feasible", "sequel": specB}
+        out.append(case)
     return out
 
 
@@ -78,7 +99,24 @@ def run_case(case):
             moved = np.any((np.isfinite(P.lb)) & (P.x0 < P.lb + 1.001e-3 * rngw)) or np.any((np.isfinite(P.ub)) & (P.x0 > P.ub - 1.001e-3 * rngw))
         if given_infeasible and moved:
             given_infeasible = None
-    rec = C.run_monitored(case, {"C02"})
+    holder = None
+    if case.get("sequel") is not None:
+        from ..runmon import SharedCons
+
+        holder = SharedCons()
+    rec = C.run_monitored(case, {"C02"}, **({"shared_cons": holder} if holder is not None else {}))
+    if holder is not None:
+        rec2 = C.run_monitored({"spec": case["sequel"]}, {"C02"}, shared_cons=holder)
+        rec["cnt"]["C02.sequel_runs_sharing_the_constraint_object"] = 1
+        rec["cnt"]["C02.sequel_target_points"] = (rec2.get("cnt") or {}).get("C02.target_points", 0)
+        rec["sequel_status"] = rec2.get("status")
+        for v in rec2.get("viol") or []:
+            v = dict(v)
+            v["detail"] = dict(v.get("detail") or {}, run="sequel: same constraint object, other plausible box", sequel_plb=case["sequel"]["plb"], sequel_pub=case["sequel"]["pub"])
+            rec["viol"].append(v)
+        for k, n in (rec2.get("cnt") or {}).items():
+            if k.startswith("cons_rejections."):
+                rec["cnt"][k] = rec["cnt"].get(k, 0) + n
     rec["given_infeasible"] = given_infeasible
     rec["start"] = case["start"]
     if given_infeasible is None and P.x0 is not None:
